@@ -5,8 +5,9 @@ import Vflow.Model.Base
 Every Go operation that can panic (index `b[i]`, slice `b[i:j]`, `b[i:]`) is an explicit check
 (`at?`, `slice?`, `from?`) that yields `Res.panic` when out of range; the guards of the Go code
 (`len(p.data) < 14` …) are transcribed as they are.  The model describes the code after the
-`fix:` commits F7 (802.1Q tag needs 18 octets), F8 (IPv4 `Flags`/`FragOff` from the right bits)
-and F15 (`Vlan` is the 12-bit VLAN identifier).
+`fix:` commits F7 (802.1Q tag needs 18 octets), F8 (IPv4 `Flags`/`FragOff` from the right bits),
+F15 (`Vlan` is the 12-bit VLAN identifier) and F17 (the IPv4 header length is the IHL field's, so the
+transport layer is read after the IPv4 options).
 
 Core Lean only.
 -/
@@ -149,27 +150,38 @@ def decodeEthernet (d : Bytes) : Res (L2 × Bytes) :=
       let rest ← from? d 14
       pure (l2, rest)
 
-/-- `decodeIPv4Header` (after the F8 repair: flags = top 3 bits of octet 6, offset = the other 13) -/
+/-- the IPv4 header length in octets from the first octet `b0` (after the F17 repair):
+`hlen := int(p.data[0]&0x0f) * 4; if hlen < IPv4HLen { hlen = IPv4HLen }` — the IHL nibble counts
+32-bit words, options included; an IHL below 5 is malformed and is treated as 5 -/
+def ihlOctets (b0 : Nat) : Nat :=
+  if (b0 % 16) * 4 < 20 then 20 else (b0 % 16) * 4
+
+/-- `decodeIPv4Header` (after the F8 repair: flags = top 3 bits of octet 6, offset = the other 13; and
+the F17 repair: the header is `ihlOctets` long — a sampled header shorter than that is
+`errShortIPv4HeaderLength` — and the transport layer starts after the options, `p.data[hlen:]`) -/
 def decodeIPv4 (d : Bytes) : Res (IPv4Hdr × Bytes) :=
   if d.length < 20 then .err .ip4Short else do
-    let src ← slice? d 12 16
-    let dst ← slice? d 16 20
-    let b0 ← at? d 0
-    let b1 ← at? d 1
-    let b2 ← at? d 2
-    let b3 ← at? d 3
-    let b4 ← at? d 4
-    let b5 ← at? d 5
-    let b6 ← at? d 6
-    let b7 ← at? d 7
-    let b8 ← at? d 8
-    let b9 ← at? d 9
-    let b10 ← at? d 10
-    let b11 ← at? d 11
-    let rest ← from? d 20
-    pure ({ version := b0 / 16, tos := b1, totalLen := b2 * 256 + b3, id := b4 * 256 + b5,
-            flags := b6 / 32, fragOff := (b6 % 32) * 256 + b7, ttl := b8, protocol := b9,
-            checksum := b10 * 256 + b11, src := src, dst := dst }, rest)
+    let i0 ← at? d 0             -- p.data[0]&0x0f
+    let hlen := ihlOctets i0
+    if d.length < hlen then .err .ip4Short else do
+      let src ← slice? d 12 16
+      let dst ← slice? d 16 20
+      let b0 ← at? d 0
+      let b1 ← at? d 1
+      let b2 ← at? d 2
+      let b3 ← at? d 3
+      let b4 ← at? d 4
+      let b5 ← at? d 5
+      let b6 ← at? d 6
+      let b7 ← at? d 7
+      let b8 ← at? d 8
+      let b9 ← at? d 9
+      let b10 ← at? d 10
+      let b11 ← at? d 11
+      let rest ← from? d hlen    -- p.data[hlen:]
+      pure ({ version := b0 / 16, tos := b1, totalLen := b2 * 256 + b3, id := b4 * 256 + b5,
+              flags := b6 / 32, fragOff := (b6 % 32) * 256 + b7, ttl := b8, protocol := b9,
+              checksum := b10 * 256 + b11, src := src, dst := dst }, rest)
 
 /-- `decodeIPv6Header` -/
 def decodeIPv6 (d : Bytes) : Res (IPv6Hdr × Bytes) :=
